@@ -22,8 +22,11 @@ namespace Pew.Filters
 
 def mean (l : List Rat) : Rat := l.sum / (l.length : Rat)
 
-/-- population variance (`np.std(...)**2`, ddof = 0) -/
-def popvar (l : List Rat) : Rat := mean (l.map (fun v => (v - mean l) * (v - mean l)))
+/-- population variance (`np.std(...)**2`, ddof = 0): the mean is computed once, then the squared
+deviations from it are averaged -/
+def popvar (l : List Rat) : Rat :=
+  let m := mean l
+  mean (l.map (fun v => (v - m) * (v - m)))
 
 def sort (l : List Rat) : List Rat := l.mergeSort (fun a b => decide (a ≤ b))
 
